@@ -78,6 +78,8 @@ class SegyModel:
         if f == 115:
             return self.consts.get(f, self.ns)
         if f == 117:
+            if getattr(self, 'dt_us_fp', None) is not None:
+                return self.dt_us_fp
             return self.consts.get(f, self.dt_ms * 1000)
         return self.consts.get(f, 0)
 
@@ -340,8 +342,15 @@ class ShimSegyHandle:
         else:
             self.ilines = None
             self.xlines = None
-        self.samples = LazyArr((m.ns,), lambda idx: SymInt(term(m.t0_ms + idx[0] * m.dt_ms), True)
-                               if is_sym(m.t0_ms + idx[0] * m.dt_ms) else float(m.t0_ms + idx[0] * m.dt_ms), 'num', 'f8')
+        if getattr(m, 'dt_us_fp', None) is not None:
+            # segyio/open.py: dt = tools.dt(f) / 1000.0 ; samples = numpy.arange(n) * dt + t0   (binary64)
+            from symx.symfloat import SymFloat, to_fp
+            import z3 as _z3
+            dt = SymFloat(_z3.fpDiv(_z3.RNE(), to_fp(m.dt_us_fp), _z3.FPVal(1000.0, _z3.Float64())))
+            self.samples = LazyArr((m.ns,), lambda idx: dt * idx[0] + m.t0_ms, 'num', 'f8')
+        else:
+            self.samples = LazyArr((m.ns,), lambda idx: SymInt(term(m.t0_ms + idx[0] * m.dt_ms), True)
+                                   if is_sym(m.t0_ms + idx[0] * m.dt_ms) else float(m.t0_ms + idx[0] * m.dt_ms), 'num', 'f8')
         self.trace = _TraceAccessor(self)
         self.header = _HeaderAccessor(self)
         self.bin = _Bin(m)
